@@ -89,6 +89,8 @@ def _goals(case, out):
         fl.append(_b("f" in a)); ism.append(_b("m" in a)); dk.append(b); succs.append(_nats(c))
     evs = []
     for t in ([] if trace == "-" else trace.split(",")):
+        if t.startswith("DS."):
+            continue    # destination snapshots are checked by the OCaml runner only
         e = _event(t)
         if e is None:
             return None
